@@ -129,7 +129,7 @@ def backend_runs(r, quick):
 
 
 def run():
-    chk = Check("C19")
+    chk = Check("C19", props_modules=["GFO.Props.C19", "GFO.Props.LocalRuns"])
     chk.build_and_audit()
     r = C.rng("C19")
     quick = C.tier() != "thorough"
@@ -142,5 +142,7 @@ def run():
         chk.notes.append("tracking classes replayed on the model: HillClimbing family, Stochastic/SimulatedAnnealing (also as ParallelTempering systems), RandomSearch, both grid searches, Particle, Individual, Spiral; "
                          "monitored only (no tracker model): %s" % unmodelled)
     chk.assumptions.append("the link 'log entry = really evaluated pair' (pos_new of the receiving tracker is the position returned to the driver) is established per run by the monitor")
+    from . import localgen
+    localgen.add_to(chk, C.rng("C19-local"), 8 if C.tier() != "thorough" else 80, constraint_p=0.5)
     scen.shutdown_manager()
     return chk.finish()
